@@ -8,6 +8,62 @@ func init() {
 	verifRegister("VerifC06", VerifC06)
 	verifRegister("VerifC06Root", VerifC06Root)
 	verifRegister("VerifC06Fault", VerifC06Fault)
+	verifRegister("VerifC06Dup", VerifC06Dup)
+}
+
+// VerifC06Dup: forests whose root names may coincide (two root blocks of one name are the same directory, or the
+// same file, or an impossible demand when one occurrence is a file and the other one has children). nil is
+// returned only if every node path exists with the kind the file rule gives it -- so an impossible demand must be an
+// error -- and the entries made are exactly the distinct node paths; consistent demands succeed.
+func VerifC06Dup() {
+	n := verifN()
+	lines, rows := wellFormedLines(n, verifName)
+	nodes, roots := specForest(lines)
+	verifAssume(len(roots) >= 2)
+	exts := c06Exts()
+	vfsReset()
+	vfsSeal()
+	verifContext("C06.dup")
+	err := MkdirFromMarkdown(&verifReader{lines: rows}, WithTargetDir(vfsTarget()), WithFileExtensions(exts))
+	rels := make([][]string, len(nodes))
+	kinds := make([]int, len(nodes))
+	for i := range nodes {
+		rels[i] = nodeRel(nodes, i)
+		kinds[i] = wantKind(len(nodes[i].children) == 0, nodes[i].name, exts)
+	}
+	// a file can have nothing beneath it and cannot be a directory as well
+	conflict := false
+	distinct := 0
+	for i := range nodes {
+		first := true
+		for j := range nodes {
+			if i == j {
+				continue
+			}
+			if sameElems(rels[i], rels[j]) {
+				if j < i {
+					first = false
+				}
+				if kinds[i] != kinds[j] {
+					conflict = true
+				}
+			}
+		}
+		if first {
+			distinct++
+		}
+	}
+	if err == nil {
+		for i := range nodes {
+			verifAssert(vfsKind(rels[i]) == kinds[i], "C06.dup.kind")
+		}
+		verifAssert(vfsCount() == distinct, "C06.dup.count")
+	}
+	if !conflict {
+		verifAssert(err == nil, "C06.dup.nil")
+	}
+	verifAssert(vfsTouchedOutside() == 0, "C06.dup.inside")
+	verifReach("C06.dup.end")
 }
 
 func mRel(m *mNode) []string {
